@@ -2128,6 +2128,95 @@ pub fn run_recv(opts: &Opts, out: &mut dyn Write) {
             let _ = std::fs::remove_dir_all(&c.root);
         }
     });
+    // unsorted request queues: immediate NAK procedure with a delay, an early gap whose check has fired (and whose
+    // retransmission is lost), then a later gap followed at once by the EOF, so that the later gap's check and the
+    // whole-file check fire in the same handle_timeout: the queue is [(later), (early), (later)] when the NAK goes out
+    let mut unsorted = 0u64;
+    if opts.replay.is_none() {
+        rt.block_on(async {
+            let mut rng = Rng::new(opts.seed, "recv-unsorted");
+            let n = if opts.thorough { 200 } else { 20 };
+            for _ in 0..n {
+                cases += 1;
+                unsorted += 1;
+                let seg = *rng.pick(&[16u16, 24, 32, 64]);
+                let delay = *rng.pick(&[200u64, 300, 400]);
+                let cfg = RecvCfg {
+                    mode: TransmissionMode::Acknowledged,
+                    fss: if rng.chance(1, 6) { FileSizeFlag::Large } else { FileSizeFlag::Small },
+                    seg,
+                    crc: if rng.chance(1, 4) { CRCFlag::Present } else { CRCFlag::NotPresent },
+                    max: rng.range(2, 4) as u32,
+                    ti: *rng.pick(&[2i64, 5]),
+                    ta: *rng.pick(&[1i64, 2]),
+                    tn: *rng.pick(&[1i64, 3]),
+                    immediate: true,
+                    delay_ms: delay,
+                    fho: "-".to_string(),
+                };
+                let segu = seg as usize;
+                let nseg = 4 + rng.below(5) as usize;
+                let len = nseg * segu - rng.below(segu as u64 / 2) as usize;
+                let file = file_of(&format!("lin:{}:{}:{}", len, rng.range(1, 50), rng.below(256)));
+                let ck = if rng.chance(1, 4) { ChecksumType::Null } else { ChecksumType::Modular };
+                // with the Metadata missing the 0-0 marker leads every queue; mostly it is there
+                let with_md = !rng.chance(1, 5);
+                let md = metadata_pdu(&file, "out.bin", "src.bin", rng.chance(1, 2), ck.clone(), 0, cfg.mode, cfg.crc, cfg.fss);
+                let eof = eof_pdu(&file, ck, Condition::NoError, cfg.mode, cfg.crc, cfg.fss);
+                let mut c = RecvCase::new(&base, cases, cfg.clone());
+                c.truth.file = Some(file.clone());
+                let line = cfg.line();
+                c.hist.push(line.clone());
+                let inds = c.settle().await;
+                rec(out, &line, &format!("ok ind=[{}] st={} fs={}", inds.iter().map(ind_repr).collect::<Vec<_>>().join(";"), c.t.verif_snapshot(), fs_listing(&c.root)));
+                let piece = |i: usize| -> String {
+                    let o = i * segu;
+                    let l = segu.min(file.len() - o);
+                    format!("recv pdu {}", hexpdu(&fd(o as u64, &file[o..o + l], cfg.mode, cfg.crc, cfg.fss)))
+                };
+                // the early gap: segment `ea` lost, the next one arrives
+                let ea = rng.below(nseg as u64 - 3) as usize;
+                let la = ea + 2 + rng.below((nseg - ea - 2) as u64 - 0) as usize;
+                let la = la.min(nseg - 2);
+                if with_md {
+                    c.op(out, &format!("recv pdu {}", hexpdu(&md)), &mut viol).await;
+                }
+                for i in 0..ea {
+                    c.op(out, &piece(i), &mut viol).await;
+                }
+                c.op(out, &piece(ea + 1), &mut viol).await;
+                // its check fires, the NAK goes out, the retransmission is lost
+                c.op(out, &format!("recv adv {}", delay), &mut viol).await;
+                c.op(out, "recv timeout", &mut viol).await;
+                let mut guard = 0;
+                while verif::recv_has_pdu_to_send(&c.t) && guard < 8 {
+                    c.op(out, "recv send", &mut viol).await;
+                    guard += 1;
+                }
+                // the later gap: segment `la` lost, everything after it and the EOF arrive back to back
+                for i in (ea + 2)..nseg {
+                    if i != la {
+                        c.op(out, &piece(i), &mut viol).await;
+                    }
+                }
+                c.op(out, &format!("recv pdu {}", hexpdu(&eof)), &mut viol).await;
+                guard = 0;
+                while verif::recv_has_pdu_to_send(&c.t) && guard < 8 {
+                    c.op(out, "recv send", &mut viol).await;
+                    guard += 1;
+                }
+                c.op(out, &format!("recv adv {}", delay), &mut viol).await;
+                c.op(out, "recv timeout", &mut viol).await;
+                guard = 0;
+                while verif::recv_has_pdu_to_send(&c.t) && guard < 16 {
+                    c.op(out, "recv send", &mut viol).await;
+                    guard += 1;
+                }
+                c.drain(out, &mut viol).await;
+                let _ = std::fs::remove_dir_all(&c.root);
+            }
+        });
+    }
     // the NAK loop under fair loss (theorem-shaped schedules, the theorems' conclusions as oracles)
     let mut loops = 0u64;
     if opts.replay.is_none() {
@@ -2175,7 +2264,7 @@ pub fn run_recv(opts: &Opts, out: &mut dyn Write) {
             }
         });
     }
-    stat(out, &format!("engine=recv cases={} nak_loops={} oracle_violations={}", cases, loops, viol));
+    stat(out, &format!("engine=recv cases={} nak_loops={} unsorted_queues={} oracle_violations={}", cases, loops, unsorted, viol));
 }
 
 pub fn run_send(opts: &Opts, out: &mut dyn Write) {
